@@ -379,6 +379,11 @@ def monitor_net(ctx, profile, name, spec, rng, counters, reverse_all=False, bidi
                               {"spec": spec, "rewritten": s1, "options": kw})
             continue
         counters["pairs"] += 1
+        report_diffs(ctx, clause, profile, spec, s1, ex, scope, kw, r0, r1, counters)
+
+
+def report_diffs(ctx, clause, profile, spec, s1, ex, scope, kw, r0, r1, counters, extra_sig=None):
+    if True:
         diffs = compare_specs(spec, s1, r0, r1, ex)
         if scope == "hyd":
             diffs = [x for x in diffs if x[1].split("<->")[0].split("(")[0] in HYD_ONLY]
@@ -387,10 +392,11 @@ def monitor_net(ctx, profile, name, spec, rng, counters, reverse_all=False, bidi
             # two solutions (circulation vs backflow), C08's uniqueness hypothesis fails and which one Newton finds
             # depends on the description.  Not decidable by comparing results: counted, not reported.
             ctx.count("skipped_nonunique_lift_direction_" + clause)
-            continue
+            return
         seen = set()
         for df in diffs:
             sig = classify(clause, profile, spec, df, s1)
+            sig.update(extra_sig or {})
             k = json.dumps(sig, sort_keys=True)
             if k in seen:
                 continue
@@ -410,6 +416,105 @@ def monitor_net(ctx, profile, name, spec, rng, counters, reverse_all=False, bidi
             if res == "violation":
                 counters["reported_" + clause] = counters.get("reported_" + clause, 0) + 1
                 break                      # one report per (net, rewrite); known findings do not hide others
+
+
+def corpus_disabled():
+    """fixed nets holding at least one element of every kind in a place where both of its junctions stay supplied when
+    it is switched off (disabled_is_absent does not depend on VERIF_SEED)"""
+    def J(i, t=293.15):
+        return ["create_junction", dict(index=i, pn_bar=5.0, tfluid_k=t, height_m=0.)]
+
+    def P(i, a, b, n=1, L=0.3, **kw):
+        return [PIPE, dict(index=i, from_junction=a, to_junction=b, sections=n, length_km=L, inner_diameter_mm=80.,
+                           k_mm=0.1, **kw)]
+
+    def mesh(gas):           # two ext grids, active flow control, valve, pump / compressor, loads of all kinds
+        sc = 0.03 if gas else 1.0
+        ops = [J(i) for i in range(5)]
+        ops += [["create_ext_grid", dict(index=0, junction=0, p_bar=5.0, t_k=293.15)],
+                ["create_ext_grid", dict(index=1, junction=4, p_bar=4.9, t_k=293.15)]]
+        ops += [P(0, 0, 1), P(1, 1, 2, n=2), P(2, 2, 3), P(3, 3, 4, n=3), P(4, 1, 3)]
+        ops += [["create_flow_control", dict(index=0, from_junction=1, to_junction=2, controlled_mdot_kg_per_s=0.3 * sc,
+                                             control_active=True)],
+                ["create_valve", dict(index=0, junction=2, element=3, et="ju", inner_diameter_mm=80., opened=True,
+                                      loss_coefficient=0.5)]]
+        ops += [["create_compressor", dict(index=0, from_junction=0, to_junction=1, pressure_ratio=1.02)] if gas else
+                ["create_pump", dict(index=0, from_junction=0, to_junction=1, std_type="P1")]]
+        ops += [["create_sink", dict(index=0, junction=2, mdot_kg_per_s=0.8 * sc)],
+                ["create_sink", dict(index=1, junction=3, mdot_kg_per_s=0.6 * sc, scaling=0.5)],
+                ["create_source", dict(index=0, junction=3, mdot_kg_per_s=0.2 * sc)],
+                ["create_mass_storage", dict(index=0, junction=2, mdot_kg_per_s=0.1 * sc)]]
+        return {"fluid": "hgas" if gas else "water", "ops": ops}
+
+    def controls(gas):       # pressure control, passive flow control, heat exchanger, each parallel to pipes
+        sc = 0.03 if gas else 1.0
+        ops = [J(i) for i in range(4)] + [["create_ext_grid", dict(index=0, junction=0, p_bar=5.0, t_k=293.15)]]
+        ops += [P(0, 0, 1), P(1, 1, 2), P(2, 2, 3, n=2), P(3, 0, 2)]
+        ops += [["create_pressure_control", dict(index=0, from_junction=1, to_junction=3, controlled_junction=3,
+                                                 controlled_p_bar=4.5)],
+                ["create_flow_control", dict(index=0, from_junction=1, to_junction=2, controlled_mdot_kg_per_s=0.2 * sc,
+                                             control_active=False)],
+                ["create_heat_exchanger", dict(index=0, from_junction=0, to_junction=1, qext_w=1000.,
+                                               inner_diameter_mm=80., loss_coefficient=1.0)],
+                ["create_sink", dict(index=0, junction=3, mdot_kg_per_s=0.7 * sc)],
+                ["create_sink", dict(index=1, junction=2, mdot_kg_per_s=0.4 * sc)]]
+        return {"fluid": "hgas" if gas else "water", "ops": ops}
+
+    def loop():              # heating loop: three consumers (two in parallel), flow control + heat exchanger rung, two pumps
+        ops = [J(i, 350.) for i in range(3)] + [J(10 + i, 320.) for i in range(3)]
+        ops += [P(0, 0, 1, n=2, u_w_per_m2k=2., text_k=283.), P(1, 1, 2, u_w_per_m2k=2., text_k=283.),
+                P(2, 11, 10, n=2, u_w_per_m2k=2., text_k=283.), P(3, 12, 11, u_w_per_m2k=2., text_k=283.)]
+        ops += [["create_heat_consumer", dict(index=0, from_junction=1, to_junction=11, controlled_mdot_kg_per_s=0.5,
+                                              qext_w=30000.)],
+                ["create_heat_consumer", dict(index=1, from_junction=2, to_junction=12, controlled_mdot_kg_per_s=0.4,
+                                              deltat_k=20.)],
+                ["create_heat_consumer", dict(index=2, from_junction=2, to_junction=12, controlled_mdot_kg_per_s=0.3,
+                                              qext_w=20000.)],
+                J(20, 340.),
+                ["create_flow_control", dict(index=0, from_junction=1, to_junction=20, controlled_mdot_kg_per_s=0.3)],
+                ["create_heat_exchanger", dict(index=0, from_junction=20, to_junction=11, qext_w=15000.,
+                                               inner_diameter_mm=80.)],
+                ["create_circ_pump_const_pressure", dict(index=0, return_junction=10, flow_junction=0, p_flow_bar=6.0,
+                                                         plift_bar=1.0, t_flow_k=360.)],
+                ["create_circ_pump_const_mass_flow", dict(index=0, return_junction=10, flow_junction=0, p_flow_bar=6.0,
+                                                          mdot_flow_kg_per_s=0.4, t_flow_k=360.)]]
+        return {"fluid": "water", "ops": ops}
+    return [("water", "dis_mesh_water", mesh(False)), ("gas", "dis_mesh_gas", mesh(True)),
+            ("water", "dis_controls_water", controls(False)), ("gas", "dis_controls_gas", controls(True)),
+            ("heat", "dis_heat_loop", loop())]
+
+
+def monitor_disabled(ctx, profile, name, spec, rng, counters, every=False, bidir=None):
+    """disabled_is_absent for every kind of element: the net with one more element switched off (in_service=False,
+    opened=False) against the net in which that element (and everything else that is switched off) is deleted"""
+    if profile == "heat":
+        bidir = (rng.random() < 0.4) if bidir is None else bidir
+        kw = dict(TIGHT, mode="bidirectional" if bidir else "sequential", tol_T=1e-9)
+    else:
+        kw = dict(TIGHT, mode="hydraulics")
+    cand = rw.disable_candidates(spec)
+    kinds = sorted(cand)
+    if not every:
+        kinds = rng.sample(kinds, min(2, len(kinds)))
+    for kind in kinds:
+        for pos in (cand[kind] if every else [rng.choice(cand[kind])]):
+            a = rw.disable(spec, pos)
+            b, ex = rw.delete_disabled(a)
+            st0, r0 = run_spec(a, **kw)
+            st1, r1 = run_spec(b, **kw) if st0 == "ok" else ("-", None)
+            ctx.count("disabled_%s_%s_%s" % (kind, st0, st1))
+            ok = st0 == "ok" and st1 == "ok"
+            ctx.case({"net": name, "profile": profile, "mode": kw["mode"], "clause": "disabled_is_absent",
+                      "disabled": [kind, spec["ops"][pos][1]["index"]]}, ok and rw.finite(r1) > 0,
+                     key="dis:%s:%s:%s" % (kw["mode"], pos, gen.spec_key(spec)[:20000]))
+            if st0 == "ok" and st1 not in ("ok", "PipeflowNotConverged"):
+                ctx.violation({"clause": "disabled_is_absent", "kind": kind, "exception": st1},
+                              "the net without the switched-off %s raises %s" % (kind, st1),
+                              {"spec": a, "rewritten": b, "options": kw})
+            if not ok:
+                continue
+            counters["pairs"] += 1
+            report_diffs(ctx, "disabled_is_absent", profile, a, b, ex, "all", kw, r0, r1, counters, {"kind": kind})
 
 
 def run(ctx):
@@ -469,6 +574,9 @@ def run(ctx):
     for profile, name, spec in corpus():
         for rep in range(2):
             monitor_net(ctx, profile, name, spec, rng, counters, reverse_all=(rep == 0), bidir=(rep == 1))
+    for profile, name, spec in corpus_disabled():
+        for bd in ((False, True) if profile == "heat" else (False,)):
+            monitor_disabled(ctx, profile, name, spec, rng, counters, every=True, bidir=bd)
     # the nets on which the model and the code disagree are the first candidates of the search
     for s, _ in bad_pipe[:5] + bad_load[:5]:
         s2 = json.loads(json.dumps(s))
@@ -483,6 +591,7 @@ def run(ctx):
         profile = rng.choice(["water", "water", "gas", "heat"])
         spec = gen.gen_net(rng, profile, size=(None if ctx.quick or profile == "heat" else rng.randint(3, 30)))
         monitor_net(ctx, profile, "gen%d" % k, spec, rng, counters)
+        monitor_disabled(ctx, profile, "gen%d" % k, spec, rng, counters)
     phases["monitors"] = round(time.time() - t0, 1)
     ctx.extra["converged_pairs"] = counters["pairs"]
     if counters["pairs"] == 0:
